@@ -275,3 +275,40 @@ func TestTextDetectionCatalogue(t *testing.T) {
 		vr.Exhaustive(fmt.Sprintf("text-file detection catalogue (case-mapping length changers, invalid UTF-8, BOMs): %d cases", n))
 	}
 }
+
+// Deep nesting: every opening construct of the raw-bytes parsers repeated far beyond any depth limit, plain and with a
+// closed sibling in front of every level ("[[]" - a counter that is decremented once too often per closed sibling
+// never reaches its limit), unterminated and terminated.
+func TestDeepNestingCatalogue(t *testing.T) {
+	type pat struct{ entry, open, close string }
+	pats := []pat{
+		{"coreparser", "[", "]"}, {"coreparser", "[[]", "]"}, {"coreparser", "<<", ">>"}, {"coreparser", "<</A", ">>"}, {"coreparser", "<</A[]/B", ">>"},
+		{"coreparser", "[<<>>", "]"}, {"coreparser", "[<</K", ">>]"}, {"coreparser", "(", ")"},
+		{"contentstream", "[", "]"}, {"contentstream", "[[]", "]"}, {"contentstream", "<<", ">>"}, {"contentstream", "<</A", ">>"}, {"contentstream", "[<<>>", "]"},
+		{"contentstream", "(", ")"}, {"contentstream", "q ", "Q "}, {"contentstream", "BT ", "ET "}, {"contentstream", "/P <</A", ">> BDC "},
+		{"cmap", "[", "]"}, {"cmap", "<<", ">>"}, {"cmap", "1 beginbfrange <00> <01> [", "] endbfrange "},
+		{"htmlstring", "<div>", "</div>"}, {"htmlstring", "<ul><li>", "</li></ul>"}, {"htmlstring", "<table><tr><td>", "</td></tr></table>"}, {"htmlstring", "<b>", "</b>"},
+	}
+	n := runCatalogue(t, func(emit emitFn) {
+		for _, p := range pats {
+			for _, depth := range []int{600, 20000, 300000} {
+				for _, closed := range []bool{false, true} {
+					p, depth, closed := p, depth, closed
+					emit(p.entry, "", fmt.Sprintf("deep nesting: %q x %d, closed=%v", p.open, depth, closed), func() []byte {
+						b := strings.Repeat(p.open, depth)
+						if p.entry == "coreparser" {
+							b = "1 0 obj\n" + b
+						}
+						if closed {
+							b += " 1 " + strings.Repeat(p.close, depth)
+						}
+						return []byte(b)
+					})
+				}
+			}
+		}
+	})
+	if !t.Failed() {
+		vr.Exhaustive(fmt.Sprintf("deep-nesting catalogue (%d opening constructs x 3 depths x closed/unclosed): %d cases", len(pats), n))
+	}
+}
